@@ -1,14 +1,23 @@
 """C14 — sets: set-operator routing down to the IndexSet method with (lhs receiver, rhs argument), operand positions preserved in
-every dispatch step, size bookkeeping after every mutation, Hash arms per Value variant, kind test on literals."""
+every dispatch step, size bookkeeping after every mutation, Hash arms per Value variant, kind test on literals.
+
+Roles are decided by provenance, never by the spelling of a local: a kernel's operands are the `self.<field>` a local was taken from (through named
+locals and through private helpers, which are inlined: lib/synroles.py), operand positions come from `arguments[i]` / parameter order followed through
+`let`s and pattern bindings, the literal kind test is followed through private helpers of the evaluator on the MIR (lib/mircalls.py)."""
 import re
 from collections import defaultdict
-from lib.facts import CallGraph, find, walk, is_node, path_of, render, render_stmt, render_pat, last_seg
+from lib.facts import CallGraph, find, walk, is_node, path_of, render, render_pat, last_seg
 from lib import fxn as X
-from lib.mirq import calls_matching, result_exits
+from lib import synroles as SR
+from lib.mirq import result_exits
+from lib.mircalls import Through, error_exits_fed_by, callee_name
+from rules.c14b import (kernel_views, bool_function, generator_source_per_environment, membership_complement, scratch_env_fresh,
+                        result_kind_from_result, kind_guard_mirrored)
 
 TECHNIQUE = ("operator token -> native compiler -> dispatcher -> kernel chain for the set operators with an IndexSet-method oracle and operand-position "
              "provenance at every hop (including or-pattern arms of the reference-unwrapping fallbacks); statement-order pairing of set mutations with the "
-             "size update; arm-by-arm classification of Hash for Value; MIR dominance of the literal kind test")
+             "size update; arm-by-arm classification of Hash for Value; MIR dominance of the literal kind test; private helpers are followed (inlined on the "
+             "syntax side, summarised on the MIR side) and named locals / constants are replaced by their initialisers before a role is decided")
 EXPLANATION = (
     "Decides structural clauses of C14: (R3) the struct reached from each set operator calls exactly the IndexSet method of that meaning with the left "
     "operand as receiver and the right operand as argument (proper sub/superset = the relation plus a strict size comparison; membership = contains on the "
@@ -30,44 +39,303 @@ ORACLE = {
     "SetOp::ElementOf": ("contains", None), "SetOp::NotElementOf": ("contains", "!"),
 }
 MUTATORS = {"insert", "extend", "clear", "shift_remove", "swap_remove", "remove", "retain", "push", "append", "drain", "truncate", "pop", "shift_insert", "insert_full", "sort"}
+FLIP = {"<": ">", ">": "<", "<=": ">=", ">=": "<="}
 
 
-def positional_args(rep, rule, where, arm_pat, body, callee_rx, label):
-    """in a match arm over a 2-tuple, the call to the dispatcher must receive a value built from the first component first"""
-    alts = arm_pat[1] if arm_pat[0] == "por" else [arm_pat]
-    n = 0
-    for alt in alts:
-        if alt[0] != "ptuple" or len(alt[1]) != 2:
+# ---------------------------------------------------------------------------------------------------------------- operand positions
+class Positions:
+    """Scoped evaluation of "which operand position does this expression carry": a position set per name, started from the parameters (parameter i -> {i},
+    or for a slice/Vec parameter `args`: `args[i]` / `args.get(i)` -> {i}), pushed through `let`s, tuple / slice / or-patterns of `match`, `if let`,
+    `while let`, `for` and closure parameters.  Shadowing (`match (lhs, rhs) { (Value::Set(lhs), ..) => ..}`) is handled by scoping, so no name is special."""
+    ARGV = "argv"
+
+    def __init__(self, sink):
+        self.sink = sink            # sink(node, scope, alt_pattern): called for every call / struct node
+
+    def val(self, e, scope):
+        """abstract value of an expression: a frozenset of operand positions, ARGV (the argument vector itself) or ("T", [component values]) for a tuple"""
+        if not isinstance(e, list):
+            return frozenset()
+        if not is_node(e):
+            out = frozenset()
+            for x in e:
+                out |= self.flat(self.val(x, scope))
+            return out
+        t = e[0]
+        if t == "path":
+            v = scope.get(e[1])
+            return v if v is not None else frozenset()
+        if t == "tuple":
+            return ("T", [self.val(x, scope) for x in e[1]])
+        if t in ("ref", "rawaddr"):
+            return self.val(e[2], scope)
+        if t == "un" and e[1] == "*":
+            return self.val(e[2], scope)
+        if t == "cast":
+            return self.val(e[1], scope)
+        if t == "try":
+            return self.val(e[1], scope)
+        if t == "field":
+            v = self.val(e[1], scope)
+            if isinstance(v, tuple) and re.match(r"^\d+$", str(e[2])) and int(e[2]) < len(v[1]):
+                return v[1][int(e[2])]
+            return self.flat(v)
+        if t == "index":
+            base = self.val(e[1], scope)
+            if base == self.ARGV:
+                if is_node(e[2]) and e[2][0] == "int":
+                    return frozenset([int(e[2][1])])
+                return frozenset()
+            return self.flat(base) | self.flat(self.val(e[2], scope))
+        if t == "mcall":
+            base = self.val(e[1], scope)
+            if base == self.ARGV:
+                if e[2] in ("get", "get_unchecked", "get_mut") and e[4] and is_node(e[4][0]) and e[4][0][0] == "int":
+                    return frozenset([int(e[4][0][1])])
+                if e[2] == "first":
+                    return frozenset([0])
+                if e[2] in ("clone", "iter", "as_slice", "to_vec", "as_ref", "borrow", "deref"):
+                    return self.ARGV
+                return frozenset()
+            if isinstance(base, tuple) and e[2] in ("clone", "to_owned") and not e[4]:
+                return base
+            out = self.flat(base)
+            for a in e[4]:
+                out |= self.flat(self.val(a, scope))
+            return out
+        if t in ("block", "unsafe") and e[1] and e[1][-1][0] == "expr" and not e[1][-1][2] and all(st[0] != "let" for st in e[1][:-1]):
+            return self.val(e[1][-1][1], scope)
+        if t in ("macro", "closure"):
+            return frozenset()
+        out = frozenset()
+        for x in e[1:]:
+            if isinstance(x, list):
+                out |= self.flat(self.val(x, scope))
+        return out
+
+    def flat(self, v):
+        if isinstance(v, tuple):
+            out = frozenset()
+            for c in v[1]:
+                out |= self.flat(c)
+            return out
+        if v == self.ARGV or v is None:
+            return frozenset()
+        return v
+
+    def pos(self, e, scope):
+        return set(self.flat(self.val(e, scope))) if e is not None else set()
+
+    def bind(self, pat, e, scope, v=None):
+        """{binder: abstract value} for matching pattern `pat` against expression `e` (or against an already evaluated value `v`)"""
+        out = {}
+        while is_node(pat) and pat[0] in ("ptype", "pref"):
+            pat = pat[1] if pat[0] == "ptype" else pat[2]
+        if not is_node(pat):
+            return out
+        if v is None:
+            v = self.val(e, scope) if e is not None else frozenset()
+        if pat[0] == "ptuple" and isinstance(v, tuple) and len(v[1]) == len(pat[1]):
+            for a, b in zip(pat[1], v[1]):
+                out.update(self.bind(a, None, scope, b))
+            return out
+        if pat[0] == "pslice" and v == self.ARGV:
+            for i, a in enumerate(pat[1]):
+                for b in SR.pat_binders(a):
+                    out[b] = frozenset([i])
+            return out
+        if pat[0] == "pident" and not re.match(r"^[A-Z]", pat[1]):
+            out[pat[1]] = v
+            if len(pat) > 4 and pat[4] is not None:
+                out.update(self.bind(pat[4], None, scope, v))
+            return out
+        fv = self.flat(v)
+        for b in SR.pat_binders(pat):
+            out[b] = fv
+        return out
+
+    def alts(self, pat):
+        while is_node(pat) and pat[0] in ("ptype",):
+            pat = pat[1]
+        return pat[1] if is_node(pat) and pat[0] == "por" else [pat]
+
+    def run(self, stmts, scope, alt=None):
+        scope = dict(scope)
+        for st in stmts:
+            if not is_node(st):
+                continue
+            if st[0] == "let":
+                if len(st) > 2 and st[2] is not None:
+                    self.visit(st[2], scope, alt)
+                    scope.update(self.bind(st[1], st[2], scope))
+                    if len(st) > 3 and st[3] is not None:
+                        self.visit(st[3], scope, alt)
+                else:
+                    for b in SR.pat_binders(st[1]):
+                        scope[b] = frozenset()
+            elif st[0] == "expr":
+                self.visit(st[1], scope, alt)
+            elif st[0] == "item":
+                pass
+            else:
+                self.visit(st, scope, alt)
+
+    def _cond(self, c, scope, alt):
+        """scope inside the then-branch / loop body of a condition that may hold `let` bindings (`if let P = e`, `a && let P = e`)"""
+        sc = dict(scope)
+        for n in walk(c):
+            if n[0] == "letc":
+                sc.update(self.bind(n[1], n[2], scope))
+        self.visit(c, scope, alt)
+        return sc
+
+    def visit(self, e, scope, alt=None):
+        if not isinstance(e, list):
+            return
+        if not is_node(e):
+            if e and all(is_node(y) and y[0] in ("let", "expr", "item") for y in e):
+                self.run(e, scope, alt)
+            else:
+                for x in e:
+                    self.visit(x, scope, alt)
+            return
+        t = e[0]
+        if t == "match":
+            self.visit(e[1], scope, alt)
+            for arm in e[2]:
+                for a in self.alts(arm[0]):
+                    sc = dict(scope)
+                    sc.update(self.bind(a, e[1], scope))
+                    a2 = a          # the innermost arm (one alternative of an or-pattern at a time) names the site
+                    if arm[1] is not None:
+                        self.visit(arm[1], sc, a2)
+                    self.visit(arm[2], sc, a2)
+            return
+        if t == "if":
+            sc = self._cond(e[1], scope, alt)
+            self.run(e[2], sc, alt)
+            if e[3] is not None:
+                self.visit(e[3], scope, alt)
+            return
+        if t == "while":
+            sc = self._cond(e[1], scope, alt)
+            self.run(e[2], sc, alt)
+            return
+        if t == "for":
+            self.visit(e[2], scope, alt)
+            sc = dict(scope)
+            sc.update(self.bind(e[1], e[2], scope))
+            self.run(e[3], sc, alt)
+            return
+        if t in ("block", "unsafe", "loop"):
+            self.run(e[1], scope, alt)
+            return
+        if t == "closure":
+            sc = dict(scope)
+            for p in e[1]:
+                for b in SR.pat_binders(p):
+                    sc[b] = frozenset()
+            self.visit(e[2], sc, alt)
+            return
+        if t in ("call", "struct", "mcall"):
+            self.sink(e, scope, alt)
+        if t == "macro":
+            return
+        for x in e[1:]:
+            if isinstance(x, list):
+                self.visit(x, scope, alt)
+
+
+def param_scope(it):
+    """initial scope of a function: parameter i -> {i}; a single slice / Vec parameter of Values -> the argument vector"""
+    sc = {}
+    ins = [p for p in it["sig"]["inputs"] if p[0] != "self"]
+    i = 0
+    for p in ins:
+        if not is_node(p[0]):
             continue
-        pos = {}
-        for i, comp in enumerate(alt[1]):
-            for b in find(comp, "pident"):
-                pos[b[1]] = i
-        # locals derived from a positional operand (leftmost operand name of the initialiser, e.g. rhs.convert_to(&lhs.kind()))
-        for node in list(find(body, "letc")) + [l for l in find(body, "let") if len(l) == 4]:
-            init = node[2]
-            if init is None:
-                continue
-            names = [x[1] for x in find(init, "path") if x[1] in pos]
-            if names:
-                for b in find(node[1], "pident"):
-                    pos.setdefault(b[1], pos[names[0]])
-        for c in find(body, "call"):
-            p = path_of(c[1])
-            if not p or not re.search(callee_rx, p) or len(c[2]) != 2:
-                continue
-            n += 1
-            got = []
-            for a in c[2]:
-                names = [x[1] for x in find(a, "path") if x[1] in pos]
-                got.append({pos[x] for x in names})
-            ok = got[0] == {0} and got[1] == {1}
-            rep.check(ok, rule, "%s:%s" % (label, "operands-in-order") if ok else "%s:operands-swapped:%s" % (label, re.sub(r"\s+", "", render_pat(alt))[:60]),
-                      "%s: in the arm `%s` the dispatcher call `%s` receives its operands in positions %s instead of (first, second): the operator is applied to swapped operands for this storage-form combination" % (
-                          label, render_pat(alt)[:100], render(c)[:90], [sorted(g) for g in got]), where)
-    return n
+        ty = re.sub(r"\s", "", p[1] or "")
+        for b in SR.pat_binders(p[0]):
+            if re.search(r"^&(mut)?(Vec<Value>|\[Value\])$", ty):
+                sc[b] = Positions.ARGV
+            else:
+                sc[b] = frozenset([i])
+        i += 1
+    return sc
 
 
+def builders_of(crate, struct_name):
+    """functions of the crate that construct `struct_name` (directly, or by calling one that does): the dispatcher role"""
+    direct = []
+    cands = [f for lst in crate.fns.values() for f in lst] + [m for lst in crate.methods.values() for m in lst if not m.get("trait")]
+    for f in cands:
+        if any(last_seg(s[1]) == struct_name for s in find(f["body"], "struct")):
+            direct.append(f)
+    ids = {id(f) for f in direct}
+    return direct, ids
+
+
+def hop_check(rep, rule, crate, comp_item, builder_ids, label, where, struct_name=None, first=None, second=None):
+    """every call of the dispatcher inside NativeFunctionCompiler::compile (the direct attempt and every fallback arm) receives a value built from the first
+    operand first and one built from the second operand second"""
+    body, _ = SR.inline(comp_item, crate, depth=2, only=lambda h: id(h) not in builder_ids)
+    n = [0]
+
+    def sink(node, scope, alt):
+        if node[0] == "struct" and struct_name is not None and last_seg(node[1]) == struct_name:
+            # the dispatcher was inlined into compile(): the kernel is built right here, its operand fields are the hop
+            init = {f[0]: f[1] for f in node[2]}
+            got = [P.pos(init.get(first), scope), P.pos(init.get(second), scope)]
+            rep.check(got[0] == {0} and got[1] == {1}, rule, "%s:dispatcher-binds-in-order" % struct_name,
+                      "%s builds %s with %s from operand %s and %s from operand %s" % (label, struct_name, first, sorted(got[0]), second, sorted(got[1])), where)
+        elif node[0] == "call" and len(node[2]) == 2:
+            h = crate.resolve_call(node, comp_item)
+            if h is None or id(h) not in builder_ids:
+                return
+            got = [P.pos(a, scope) for a in node[2]]
+        else:
+            return
+        n[0] += 1
+        if not got[0] or not got[1]:
+            rep.note("undecided", "%s: operand provenance of `%s` not followed to the argument vector" % (label, render(node)[:80]))
+            return
+        ok = got[0] == {0} and got[1] == {1}
+        shown = SR.pat_shape(alt)[:60] if alt is not None else "direct"
+        rep.check(ok, rule, "%s:%s" % (label, "operands-in-order") if ok else "%s:operands-swapped:%s" % (label, shown),
+                  "%s: %s the dispatcher call `%s` receives its operands in positions %s instead of (first, second): the operator is applied to swapped operands for this storage-form combination" % (
+                      label, ("in the arm `%s`" % render_pat(alt)[:100]) if alt is not None else "outside the fallback arms", render(node)[:90], [sorted(g) for g in got]), where)
+    P = Positions(sink)
+    P.run(body, param_scope(comp_item))
+    # how are MutableReference operands looked through?  per operand (`match arguments[0] { MutableReference(r) => .., v => v }`: ONE forwarding site then serves
+    # every storage-form combination) or per combination (tuple patterns: one site per combination)
+    per_operand = 0
+    for n_ in walk(body):
+        pats = [a[0] for a in n_[2]] if n_[0] == "match" else [n_[1]] if n_[0] == "letc" else []
+        for p in pats:
+            alts = p[1] if is_node(p) and p[0] == "por" else [p]
+            if any(is_node(a) and a[0] == "pts" and last_seg(a[1]) == "MutableReference" for a in alts):
+                per_operand += 1
+    return n[0], per_operand
+
+
+def dispatcher_check(rep, rule, crate, builder, struct_name, first, second, where_crate):
+    body, _ = SR.inline(builder, crate, depth=2)
+    res = []
+
+    def sink(node, scope, alt):
+        if node[0] != "struct" or last_seg(node[1]) != struct_name:
+            return
+        init = {f[0]: f[1] for f in node[2]}
+        res.append((P.pos(init.get(first), scope), P.pos(init.get(second), scope)))
+    P = Positions(sink)
+    P.run(body, param_scope(builder))
+    for p1, p2 in res:
+        rep.check(p1 == {0} and p2 == {1}, rule, "%s:dispatcher-binds-in-order" % struct_name,
+                  "%s builds %s with %s from operand %s and %s from operand %s" % (builder["name"], struct_name, first, sorted(p1), second, sorted(p2)), "%s (%s)" % (builder["name"], where_crate))
+    return len(res)
+
+
+# ---------------------------------------------------------------------------------------------------------------- run
 def run(F, rep, tier):
     rep.rule("C14-R1", "Hash for Value: every variant hashes its payload through a closed idiom; no self-recursive arm")
     rep.rule("C14-R2", "every mutation of MechSet.set is followed by num_elements = set.len()")
@@ -77,6 +345,8 @@ def run(F, rep, tier):
     routing = term_routing(F)
     crate = "mech_set.lib"
     items = F.syn(crate)
+    CR = SR.Crate(items)
+    views = kernel_views(CR)
     S = X.load_fxn_structs(F, [crate])
     by_name = {fs.name: fs for fs in S.values()}
     cg = CallGraph(F, [crate, "mech_core.lib"])
@@ -93,7 +363,7 @@ def run(F, rep, tier):
         structs = set()
         for f in reach:
             b = cg.bodies.get(f)
-            if b and not re.match(r"^<.* as ", f):
+            if b and (f in root or not re.match(r"^<.* as ", f)):      # the compiler itself may build the kernel (dispatcher inlined); other trait impls are not on the route
                 for i, s in b.aggs():
                     nm = s["adt"].split("::")[-1]
                     if nm in by_name and s["adt"].startswith("mech_set"):
@@ -102,158 +372,307 @@ def run(F, rep, tier):
             continue
         n_ops += 1
         fs = by_name[sorted(structs)[0]]
-        # local alias -> field
-        alias = {}
-        for st in find(fs.solve, "let"):
-            if len(st) == 4 and st[2] is not None:
-                for fa in find(st[2], "field"):
-                    if path_of(fa[1]) == "self":
-                        for p in find(st[1], "pident"):
-                            alias[p[1]] = fa[2]
+        view = views.get(fs.name)
         fields = [f[0] for f in fs.fields]
         first, second = fields[0], fields[1]
-
-        def field_of(e):
-            names = [alias.get(x[1]) for x in find(e, "path") if x[1] in alias]
-            names += [fa[2] for fa in find(e, "field") if path_of(fa[1]) == "self"]
-            return {n for n in names if n}
-        calls = [m for m in find(fs.solve, "mcall") if m[2] == method and len(m[4]) == 1]
         why = None
-        if len(calls) != 1:
-            why = "expected one call of IndexSet::%s, found %d" % (method, len(calls))
+        if view is None:
+            why = "solve() not found"
         else:
-            m = calls[0]
-            recv, arg = field_of(m[1]), field_of(m[4][0])
-            if method == "contains":
-                # element is the first operand, the set the second
-                if recv != {second} or arg != {first}:
-                    why = "membership is tested as %s.contains(%s); expected <second operand: the set>.contains(<first operand: the element>)" % (sorted(recv), sorted(arg))
-            elif recv != {first} or arg != {second}:
-                why = "calls %s.%s(%s); expected %s.%s(%s)" % (sorted(recv), method, sorted(arg), first, method, second)
-            if why is None and extra in ("<", ">"):
-                cmps = [b for b in find(fs.solve, "bin") if b[1] == extra and "len" in render(b)]
-                if not cmps or field_of(cmps[0][2]) != {first} or field_of(cmps[0][3]) != {second}:
-                    why = "proper relation lacks the strict size comparison len(%s) %s len(%s)" % (first, extra, second)
-            if why is None and extra == "!":
-                if not any(u[1] == "!" and any(c is m for c in find(u, "mcall")) for u in find(fs.solve, "un")):
-                    why = "negated membership does not negate the contains result"
-            if why is None and extra is None and method == "contains":
-                if any(u[1] == "!" and any(c is m for c in find(u, "mcall")) for u in find(fs.solve, "un")):
-                    why = "membership result is negated"
+            field_of = view.fields_of
+            calls = [m for m in find(view.body, "mcall") if m[2] == method and len(m[4]) == 1]
+            if len(calls) != 1:
+                why = "expected one call of IndexSet::%s, found %d" % (method, len(calls))
+            else:
+                m = calls[0]
+                recv, arg = field_of(m[1]), field_of(m[4][0])
+                if method == "contains":
+                    # element is the first operand, the set the second
+                    if recv != {second} or arg != {first}:
+                        why = "membership is tested as %s.contains(%s); expected <second operand: the set>.contains(<first operand: the element>)" % (sorted(recv), sorted(arg))
+                elif recv != {first} or arg != {second}:
+                    why = "calls %s.%s(%s); expected %s.%s(%s)" % (sorted(recv), method, sorted(arg), first, method, second)
+                if why is None and extra in ("<", ">"):
+                    good = False
+                    for b in find(view.body, "bin"):
+                        if b[1] not in (extra, FLIP[extra]) or not re.search(r"\blen\b|num_elements", render(view.env.expand(b))):
+                            continue
+                        l, r = (b[2], b[3]) if b[1] == extra else (b[3], b[2])
+                        if field_of(l) == {first} and field_of(r) == {second}:
+                            good = True
+                    if not good:
+                        why = "proper relation lacks the strict size comparison len(%s) %s len(%s)" % (first, extra, second)
+                if why is None and method == "contains":
+                    table = bool_function(view)
+                    if table is not None and None not in table.values():
+                        negated = (table[(True, True)] is False and table[(True, False)] is True)
+                        plain = (table[(True, True)] is True and table[(True, False)] is False)
+                    else:
+                        # not interpretable: fall back to the syntactic form (a `!` applied to an expression that holds the contains call)
+                        negated = any(u[1] == "!" and any(c_[2] == "contains" for c_ in find(view.env.expand(u[2]), "mcall")) for u in find(view.body, "un"))
+                        plain = not negated
+                    if extra == "!" and not negated:
+                        why = "negated membership does not negate the contains result"
+                    if extra is None and not plain:
+                        why = "membership result is negated"
         rep.check(why is None, "C14-R3", "%s:%s" % (var, fs.name), "%s (operator %s): %s" % (fs.name, var, why), "%s (%s)" % (fs.name, crate),
                   sample={"operator": var, "compiler": nfc, "kernel": fs.name, "method": method})
-        # hops: NFC::compile arms and dispatcher
+        # hops: NFC::compile (direct attempt + fallback arms) and dispatcher
+        builders, builder_ids = builders_of(CR, fs.name)
         comp = [it for it in items if it["k"] == "method" and it["name"] == "compile" and it["trait"] and last_seg(it["trait"]) == "NativeFunctionCompiler" and X.type_head(it["self"]) == nfc]
-        npos = 0
         commutative = method in ("union", "intersection", "symmetric_difference")
-        for it in (comp if not commutative else []):
-            for mt in find(it["body"], "match"):
-                for arm in mt[2]:
-                    npos += positional_args(rep, "C14-R3", "%s::compile (%s)" % (nfc, crate), arm[0], arm[2], r"_fxn$", "%s::compile" % nfc)
         if not commutative:
-            rep.floor("C14-R3", "operand-forwarding arms in %s::compile" % nfc, npos, 2)
+            npos = unwrap = 0
+            for it in comp:
+                a_, b_ = hop_check(rep, "C14-R3", CR, it, builder_ids, "%s::compile" % nfc, "%s::compile (%s)" % (nfc, crate), fs.name, first, second)
+                npos += a_
+                unwrap += b_
+            # one site per storage-form combination (at least the direct one and a fallback) - or a single site behind per-operand reference unwrapping
+            rep.floor("C14-R3", "operand-forwarding arms in %s::compile" % nfc, npos, 1 if unwrap >= 2 else 2)
         # dispatcher: fn x_fxn(lhs, rhs) -> struct {first: lhs.., second: rhs..}
-        for it in items:
-            if it["k"] == "fn" and it["name"].endswith("_fxn"):
-                for s in find(it["body"], "struct"):
-                    if s[1] == fs.name:
-                        params = [p[0][1] for p in it["sig"]["inputs"] if is_node(p[0]) and p[0][0] == "pident"]
-                        # arms rebind: pattern (Value::Set(lhs), Value::Set(rhs)) over (param0, param1)
-                        init = {f[0]: f[1] for f in s[2]}
-                        def src_pos(e, arm_pos):
-                            names = [x[1] for x in find(e, "path")]
-                            return {arm_pos[n] for n in names if n in arm_pos}
-                        # find enclosing arm binder positions
-                        arm_pos = {p: i for i, p in enumerate(params)}
-                        for mt in find(it["body"], "match"):
-                            for arm in mt[2]:
-                                if any(x is s for x in find(arm[2], "struct")) and arm[0][0] == "ptuple":
-                                    for i, compn in enumerate(arm[0][1]):
-                                        for b in find(compn, "pident"):
-                                            arm_pos[b[1]] = i
-                        p1, p2 = src_pos(init.get(first), arm_pos), src_pos(init.get(second), arm_pos)
-                        rep.check(p1 == {0} and p2 == {1}, "C14-R3", "%s:dispatcher-binds-in-order" % fs.name,
-                                  "%s builds %s with %s from operand %s and %s from operand %s" % (it["name"], fs.name, first, sorted(p1), second, sorted(p2)), "%s (%s)" % (it["name"], crate))
+        for b in builders:
+            dispatcher_check(rep, "C14-R3", CR, b, fs.name, first, second, crate)
     rep.floor("C14-R3", "set operators followed to their kernel", n_ops, 9)
 
-    # ---- R2 size pairing
+    rule_r2(F, rep)
+    rule_r1(F, rep)
+    rule_r4(F, rep)
+
+    generator_source_per_environment(F, rep)
+    membership_complement(F, rep)
+    scratch_env_fresh(F, rep, "C14-R7", {"comprehension_environments"}, 1)
+    result_kind_from_result(F, rep)
+    kind_guard_mirrored(F, rep)
+
+
+# ---------------------------------------------------------------------------------------------------------------- R2 size pairing
+def set_events(body, env):
+    """in source order: ("mut", base, how, value) for every mutation of `<base>.set`, ("size", base, rhs) for every `<base>.num_elements = rhs`.
+    `base` is the canonical text of the place after locals were replaced by what they stand for, so `result`, `out_ptr` and a helper's `target` parameter
+    bound to it are the same base."""
+    def base_of(e):
+        return re.sub(r"\s+", "", render(SR.peel(env.expand(SR.peel(e)))))
+    seq = []
+    for n in walk(body):
+        if n[0] == "mcall" and n[2] in MUTATORS and is_node(SR.peel(n[1])) and SR.peel(n[1])[0] == "field" and SR.peel(n[1])[2] == "set":
+            seq.append(("mut", base_of(SR.peel(n[1])[1]), n[2], None))
+        elif n[0] == "assign":
+            l = SR.peel(n[1])
+            if is_node(l) and l[0] == "field" and l[2] == "set":
+                seq.append(("mut", base_of(l[1]), "=", n[2]))
+            elif is_node(l) and l[0] == "field" and l[2] == "num_elements":
+                seq.append(("size", base_of(l[1]), n[2]))
+    return seq
+
+
+def rule_r2(F, rep):
     n_mut = 0
     for c in ("mech_set.lib", "mech_core.lib", "mech_interpreter.lib"):
-        for it in F.syn(c):
-            if it["k"] not in ("fn", "method"):
+        items = F.syn(c)
+        CR = SR.Crate(items)
+        cand = [it for it in items if it.get("k") in ("fn", "method") and it.get("body") is not None]
+        # cheap pre-filter: only bodies that touch a `.set` / `.num_elements` field themselves can matter, alone or as a helper
+        touching = {id(it) for it in cand if any(f[2] in ("set", "num_elements") for f in find(it["body"], "field"))}
+        names = {it["name"] for it in cand if id(it) in touching}
+        inlined_into = defaultdict(int)
+        work = []
+        for it in cand:
+            direct = id(it) in touching
+            calls_helper = any((last_seg(path_of(x[1]) or "") in names) for x in find(it["body"], "call")) or any(x[2] in names and path_of(x[1]) == "self" for x in find(it["body"], "mcall"))
+            if not (direct or calls_helper):
                 continue
-            # flatten statements in order
-            seq = []
-            for n in walk(it["body"]):
-                if n[0] == "mcall" and n[2] in MUTATORS and re.search(r"\.set$", render(n[1])):
-                    seq.append(("mut", render(n[1]), n[2]))
-                elif n[0] == "assign" and re.search(r"\.set$", render(n[1])):
-                    seq.append(("mut", render(n[1]), "="))
-                elif n[0] == "assign" and re.search(r"\.num_elements$", render(n[1])):
-                    seq.append(("size", render(n[1])[:-len(".num_elements")], render(n[2])))
+            body, used = SR.inline(it, CR, depth=2, only=lambda h: id(h) in touching or any(last_seg(path_of(x[1]) or "") in names for x in find(h["body"], "call")))
+            for h in used:
+                inlined_into[id(h)] += 1
+            work.append((it, body))
+        for it, body in work:
+            env = SR.Env(body, CR)
+            seq = set_events(body, env)
             muts = [i for i, s in enumerate(seq) if s[0] == "mut"]
             if not muts:
                 continue
-            n_mut += 1
-            base = seq[muts[-1]][1][:-len(".set")] if seq[muts[-1]][1].endswith(".set") else seq[muts[-1]][1]
-            later = [s for s in seq[muts[-1] + 1:] if s[0] == "size" and s[1] == base and re.search(r"\.set\.len\(\)", s[2])]
             name = "%s%s" % ((X.type_head(it["self"]) + "::") if it["k"] == "method" else "", it["name"])
+            last = seq[muts[-1]]
+            base = last[1]
+            # a private helper whose only job is a part of its caller's update is judged where it is inlined, with the caller's statements around it
+            if inlined_into.get(id(it)) and it.get("vis", "") == "" and not it.get("trait"):
+                own = [s for s in seq[muts[-1] + 1:] if s[0] == "size" and s[1] == base]
+                if not own:
+                    rep.note("helper_judged_in_caller", "%s (%s): mutates a set; the size update is looked for in its %d caller(s)" % (name, c, inlined_into[id(it)]))
+                    continue
+            n_mut += 1
+
+            def canon(e):
+                return re.sub(r"\s+", "", render(SR.peel(env.expand(e))))
+
+            def is_len_of_set(rhs):
+                for m in find(env.expand(rhs), "mcall"):
+                    if m[2] == "len" and not m[4]:
+                        r = SR.peel(m[1])
+                        if is_node(r) and r[0] == "field" and r[2] == "set" and re.sub(r"\s+", "", render(SR.peel(r[1]))) == base:
+                            return True
+                        # the size of the very value that was stored: `let n = merged.len(); out.set = merged; out.num_elements = n`
+                        if last[2] == "=" and last[3] is not None and canon(m[1]) == canon(last[3]):
+                            return True
+                return False
+            later = [s for s in seq[muts[-1] + 1:] if s[0] == "size" and s[1] == base and is_len_of_set(s[2])]
             rep.check(bool(later), "C14-R2", "%s:size-after-mutation" % name,
-                      "%s mutates `%s.set` (last: %s) and does not assign `%s.num_elements = %s.set.len()` afterwards: the reported size goes stale" % (name, base, seq[muts[-1]][2], base, base),
+                      "%s mutates the `set` of `%s` (last: %s) and does not assign its `num_elements = set.len()` afterwards: the reported size goes stale" % (name, base[:60], last[2]),
                       "%s (%s)" % (name, c), sample={"fn": name, "mutations": [s[2] for s in seq if s[0] == "mut"]})
     rep.floor("C14-R2", "bodies mutating a MechSet", n_mut, 8)
 
-    # ---- R1 Hash for Value
+
+# ---------------------------------------------------------------------------------------------------------------- R1 Hash for Value
+def hash_calls(body, env, state_names):
+    """receivers of every `<recv>.hash(<state>)` / `Hash::hash(<recv>, <state>)` in the body whose hasher argument is the function's hasher"""
+    out = []
+    for n in walk(body):
+        recv = arg = None
+        if n[0] == "mcall" and n[2] == "hash" and len(n[4]) == 1:
+            recv, arg = n[1], n[4][0]
+        elif n[0] == "call" and last_seg(path_of(n[1]) or "") == "hash" and len(n[2]) == 2:
+            recv, arg = n[2][0], n[2][1]
+        if recv is None:
+            continue
+        a = SR.peel(env.expand(arg))
+        if path_of(a) in state_names:
+            out.append(recv)
+    return out
+
+
+def payload_root(e, env):
+    """the binder whose payload an expression hashes: strips borrows, derefs, `.borrow()`, `.to_bits()`, named locals"""
+    e = env.expand(e)
+    while True:
+        e2 = SR.peel(e)
+        if is_node(e2) and e2[0] == "mcall" and e2[2] in ("to_bits",) and not e2[4]:
+            e2 = e2[1]
+        if e2 is e:
+            break
+        e = e2
+    return e
+
+
+def rule_r1(F, rep):
     n_arms = 0
-    for it in F.syn("mech_core.lib"):
+    items = F.syn("mech_core.lib")
+    CR = SR.Crate(items)
+    for it in items:
         if it["k"] == "method" and it["trait"] and last_seg(it["trait"]) == "Hash" and X.type_head(it["self"]) == "Value" and it["name"] == "hash":
-            for mt in find(it["body"], "match"):
+            params = [p for p in it["sig"]["inputs"] if p[0] != "self" and is_node(p[0])]
+            state_names = set()
+            for p in params:
+                state_names.update(SR.pat_binders(p[0]))
+            body, _ = SR.inline(it, CR, depth=2, only=lambda h: h.get("mod") == it.get("mod") and not h.get("trait"))
+            env = SR.Env(body, CR, params=state_names)
+            for mt in find(body, "match"):
+                if SR.peel(env.expand(mt[1])) != ["path", "self"]:
+                    continue
                 for arm in mt[2]:
-                    p = arm[0]
-                    if p[0] not in ("pts", "ppath"):
-                        continue
-                    var = p[1].split("::")[-1]
-                    n_arms += 1
-                    txt = render(arm[2])
-                    binders = [b[1] for b in find(p, "pident")]
-                    selfrec = re.search(r"Value::%s\b[^;]*\.hash\(" % re.escape(var), txt) is not None and not binders
-                    if selfrec:
-                        rep.bad("C14-R1", "Value::%s:self-recursive-hash" % var, "Hash for Value::%s calls itself (`%s`): hashing such a value never terminates (stack overflow aborts the host)" % (var, txt[:60]), "src/core/src/value.rs")
-                        continue
-                    if re.search(r"todo!|unimplemented!|panic", txt):
-                        rep.note("hash_arm_panics", "Value::%s => %s (an error, not a wrong set)" % (var, txt[:30]))
-                        rep.ok("C14-R1", "Value::%s" % var)
-                        continue
-                    ok = all(re.search(r"\b%s\b(\.borrow\(\))?(\.to_bits\(\))?\.hash\(state\)" % re.escape(b), txt) for b in binders) and (bool(binders) or ".hash(state)" in txt)
-                    rep.check(ok, "C14-R1", "Value::%s" % var, "Hash for Value::%s is `%s`: the payload is not hashed through a recognised idiom (x.hash / x.borrow().hash / to_bits)" % (var, txt[:80]), "src/core/src/value.rs",
-                              sample={"variant": var, "hash": txt[:60]})
+                    alts = arm[0][1] if arm[0][0] == "por" else [arm[0]]
+                    for p in alts:
+                        while is_node(p) and p[0] == "pref":
+                            p = p[2]
+                        if p[0] not in ("pts", "ppath", "pstruct") and not (p[0] == "pident" and re.match(r"^[A-Z]", p[1])):
+                            continue
+                        var = p[1].split("::")[-1]
+                        n_arms += 1
+                        txt = render(arm[2])
+                        binders = SR.pat_binders(p)
+                        hashed = hash_calls(arm[2], env, state_names)
+                        selfrec = not binders and any(re.search(r"^Value::%s\b" % re.escape(var), re.sub(r"\s+", "", render(SR.peel(env.expand(r))))) or SR.peel(env.expand(r)) == ["path", "self"] for r in hashed)
+                        if selfrec:
+                            rep.bad("C14-R1", "Value::%s:self-recursive-hash" % var, "Hash for Value::%s calls itself (`%s`): hashing such a value never terminates (stack overflow aborts the host)" % (var, txt[:60]), "src/core/src/value.rs")
+                            continue
+                        if re.search(r"todo!|unimplemented!|panic", txt):
+                            rep.note("hash_arm_panics", "Value::%s => %s (an error, not a wrong set)" % (var, txt[:30]))
+                            rep.ok("C14-R1", "Value::%s" % var)
+                            continue
+                        roots = [payload_root(r, env) for r in hashed]
+                        ok = all(any(path_of(r) == b for r in roots) for b in binders) and (bool(binders) or bool(hashed))
+                        rep.check(ok, "C14-R1", "Value::%s" % var, "Hash for Value::%s is `%s`: the payload is not hashed through a recognised idiom (x.hash / x.borrow().hash / to_bits)" % (var, txt[:80]), "src/core/src/value.rs",
+                                  sample={"variant": var, "hash": txt[:60]})
     rep.floor("C14-R1", "Hash arms of Value", n_arms, 40)
 
-    # ---- R4 literal kind test (MIR)
+
+# ---------------------------------------------------------------------------------------------------------------- R4 literal kind test (MIR)
+CONSTRUCT = re.compile(r"NativeFunctionCompiler>::compile$|MechSet::from_vec$|MechSet::from_set$")
+
+
+def _is_construct(body, i, blk):
+    t = blk["t"]
+    return t["k"] == "call" and bool(CONSTRUCT.search(callee_name(t)) or CONSTRUCT.search(t.get("tf", "")))
+
+
+def _is_kind_cmp(body, i, blk):
+    t = blk["t"]
+    return t["k"] == "call" and bool(re.search(r"PartialEq(<.*>)?(>)?::(ne|eq)$", callee_name(t))) and "ValueKind" in " ".join(t.get("ga", []))
+
+
+def _is_mismatch(body, i, blk):
+    return any(s.get("rk") == "agg" and "SetKindMismatch" in s.get("adt", "") for s in blk["s"])
+
+
+def literal_kind_test(th, body, depth, rep, top):
+    """for every construction site of `body` (direct, or inside a private helper): a kind comparison that can exit with the kind-mismatch error comes first and the
+    construction is not reachable once the mismatch error was raised.  Returns [(line, ok)] per construction site."""
+    K = th.nodes(body, _is_kind_cmp, depth)
+    M = th.nodes(body, _is_mismatch, depth)
+    C = th.nodes(body, _is_construct, depth)
+    ok_exits, err_exits = result_exits(body)
+
+    def after_mismatch(m, h):
+        if h is None:
+            return [m]
+        fed = error_exits_fed_by(body, m)
+        if not fed:
+            return [m]
+        # the helper raised the error and handed it back: inside the helper nothing may follow the error but its return
+        hk, hm = th.nodes(h, _is_kind_cmp, depth - 1), th.nodes(h, _is_mismatch, depth - 1)
+        h_ok, _ = result_exits(h)
+        for mm, hh in hm:
+            if hh is None and any(x in h.reachable_from([mm]) for x in h_ok):
+                return [m]          # the helper can still answer Ok after building the mismatch error: treat the caller's continuation as reachable from it
+        return fed
+    out = []
+    for ci, ch in C:
+        ct = body.blocks[ci]["t"]
+        good = False
+        for k, kh in K:
+            fwd = body.reachable_from([k])
+            if ci in fwd and k not in body.reachable_from([ci]) and ci != k:
+                for m, mh in M:
+                    if m not in fwd:
+                        continue
+                    if kh is not None and mh is not None and k == m:
+                        # comparison and error live in the same helper: the error must be reachable from the comparison there
+                        hk, hm = th.nodes(kh, _is_kind_cmp, depth - 1), th.nodes(kh, _is_mismatch, depth - 1)
+                        if not any(mm in kh.reachable_from([kk]) for kk, _ in hk for mm, _ in hm):
+                            continue
+                    good = True
+        clean = all(ci not in body.reachable_from(after_mismatch(m, mh)) for m, mh in M)
+        if not (good and clean) and ch is not None and depth > 0:
+            # the construction sits in a helper together with (maybe) its own test: judge it there
+            inner = literal_kind_test(th, ch, depth - 1, rep, False)
+            if inner and all(x[1] for x in inner):
+                good = clean = True
+        out.append((ct.get("l", body.line), good and clean))
+    if top:
+        return out, K, M, C
+    return out
+
+
+def rule_r4(F, rep):
     cgi = CallGraph(F, ["mech_interpreter.lib"])
     sb = cgi.bodies.get("mech_interpreter::structures::set")
     if rep.check(sb is not None, "C14-R4", "anchor:set", "set literal evaluator not found"):
-        ok_exits, err_exits = result_exits(sb)
-        comp = calls_matching(sb, r"NativeFunctionCompiler>::compile$|MechSet::from_vec$|MechSet::from_set$")
-        kind_cmp = [i for i, t in sb.calls() if re.search(r"PartialEq(<.*>)?(>)?::(ne|eq)$", t.get("f") or t["tf"]) and "ValueKind" in " ".join(t.get("ga", []))]
-        mism = [i for i, s in sb.aggs() if "SetKindMismatch" in s["adt"]]
-        rep.check(bool(mism), "C14-R4", "kind-mismatch-error-exists", "the set literal evaluator no longer raises a kind-mismatch error", sb.where())
-        for ci, ct in comp:
-            good = False
-            for k in kind_cmp:
-                fwd = sb.reachable_from([k])
-                if ci in fwd and k not in sb.reachable_from([ci]) and any(m in fwd for m in mism):
-                    good = True
-            rep.check(good and all(ci not in sb.reachable_from([m]) for m in mism), "C14-R4", "kind-test-precedes-construction",
-                      "the set is constructed (line %d) without a preceding element-kind comparison that can exit with the kind-mismatch error" % ct["l"], "%s:%d" % (sb.file, ct["l"]))
-        rep.floor("C14-R4", "set construction sites in set()", len(comp), 1)
-    from rules.loopshape import c14_generator_source_per_environment
-    c14_generator_source_per_environment(F, rep)
-    from rules.loopshape import c14_membership_complement
-    c14_membership_complement(F, rep)
-    from rules.loopshape import trial_env_fresh
-    trial_env_fresh(F, rep, "C14-R7", {"comprehension_environments"}, 1)
-    from rules.loopshape import c14_result_kind_from_result
-    c14_result_kind_from_result(F, rep)
-    from rules.loopshape import c14_kind_guard_mirrored
-    c14_kind_guard_mirrored(F, rep)
+        th = Through(cgi, sb, depth=2)
+        res, K, M, C = literal_kind_test(th, sb, 2, rep, True)
+        rep.check(bool(M), "C14-R4", "kind-mismatch-error-exists", "the set literal evaluator no longer raises a kind-mismatch error", sb.where())
+        for line, ok in res:
+            rep.check(ok, "C14-R4", "kind-test-precedes-construction",
+                      "the set is constructed (line %d) without a preceding element-kind comparison that can exit with the kind-mismatch error" % line, "%s:%d" % (sb.file, line))
+        rep.floor("C14-R4", "set construction sites in set()", len(C), 1)
+        for i, h in K + M + C:
+            if h is not None:
+                rep.note("followed_into_helper", "%s -> %s" % (sb.fn, h.fn))
